@@ -150,11 +150,11 @@ class FileResponseMixin:
             else:
                 # header values must be printable Latin-1 and the name sits in a
                 # quoted string; old clients get the escaped form
-                fallback_name = quote(download_name)
+                fallback_name = quote(download_name, errors="surrogateescape")
             content_disposition = (
                 "attachment; "
                 f'filename="{fallback_name}"; '
-                f"filename*=utf-8''{quote(download_name)}"
+                f"filename*=utf-8''{quote(download_name, errors='surrogateescape')}"
             )
             headers["content-disposition"] = content_disposition
 
